@@ -70,7 +70,7 @@ def main():
                             "aligned (computed by the Coq spec), the oracle demands consumed = input length, value = original, "
                             "re-encoding = canonical bytes. distinct_nontrivial as in C01.")
     chk.sample({"schema": S.to_prophy(cases[len(cases) // 3][2]), "value": jobs[len(cases) // 3]["values"][-1]})
-    return chk.finish(level="exploration")
+    return chk.finish(level="proof")
 
 
 if __name__ == "__main__":
